@@ -17,7 +17,7 @@ ArrayOps == {"take_scalar", "take_list", "take_slice", "take_mask", "take_positi
              "reindex_axis", "reindex_like", "sort_axis", "interp_axis", "dropna", "fillna", "setna", "put_copy", "copy",
              "add", "sub", "mul", "truediv", "floordiv", "pow", "radd", "rsub", "scalar_mul", "ndarray_add",
              "neg", "pos", "invert", "eq", "ne", "lt", "le", "gt", "ge", "and", "or", "stack", "concatenate"}
-MoreOps == {"median_tuple", "median_list_skipna", "sum_tuple", "argmax_tuple", "flatten_then_median", "fillna_int", "setna_int_value", "put_copy_cast_int", "put_copy_cast_float", "align_sort", "align_inner_sort", "stack_align_sort",
+MoreOps == {"setna_mask_list", "median_tuple", "median_list_skipna", "sum_tuple", "argmax_tuple", "flatten_then_median", "fillna_int", "setna_int_value", "put_copy_cast_int", "put_copy_cast_float", "align_sort", "align_inner_sort", "stack_align_sort",
             "concatenate_align", "broadcast_arrays", "to_json", "to_dataset", "percentile", "argmax", "interp_like",
             "dataset_construct", "dataset_construct_misaligned", "ds_take", "ds_mean", "ds_take_axis", "ds_sort_axis", "ds_reindex_axis",
             "ds_interp_axis", "ds_add", "ds_set_axis_copy", "ds_rename_axes_copy", "ds_rename_keys_copy", "ds_copy_then_mutate", "ds_stack", "ds_concatenate",
